@@ -7,4 +7,6 @@ export GOFLAGS=-mod=mod GOPROXY=off GOSUMDB=off GOTOOLCHAIN=local
 mkdir -p bin evidence replays .cache .work
 go1.26.8 build -o bin/htsverif ./cmd/htsverif
 ./bin/htsverif build
+# prove the simulator deterministic on this machine before anything is believed
+./bin/htsverif selftest determinism 24
 echo "setup ok"
